@@ -8,9 +8,11 @@ after import = that of a fresh interpreter), which writes job['out'].
 job = {dirs: [abs dir,...], paths: [abs input path,...], contents: [text,...], cwd: dir index,
        argv: [token,...], ops: [[kind, ...],...], tmp: dir, out: file}
 ops:  ["newclient", caching] ["get", ci, p] ["getdict", ci, p, c] ["write", p, c] ["delete", p]
-      ["chdir", d] ["setargv", [token,...]] ["cli", p]
+      ["chdir", d] ["setargv", [token,...]] ["cli", p] ["getmix", ci, p, q, [[name, value],...], c]
 A "getdict" builds GeophiresInputParameters(<dict of content c>): the client library creates its own uuid-named
-file, which becomes path p of the session (the model sees Write p c; Get ci p).
+file, which becomes path p of the session (the model sees Write p c; Get ci p).  A "getmix" builds
+GeophiresInputParameters(from_file_path=<path q>, params=<overrides>): the library's file (path p) holds the base
+file's text followed by the overrides = content c.  Both are requested through the object the library built.
 """
 import hashlib
 import io
@@ -98,23 +100,28 @@ def run_session(job):
         try:
             if kind == 'cli':   # the harness prepares argv; "before" is taken after that
                 sys.argv = ['u0', paths[op[1]], out_of(op[1])]
-            if kind == 'getdict':   # the library writes the request file itself
-                pairs = [ln.split(', ', 1) for ln in contents[op[3]].splitlines()]
-                ip = GeophiresInputParameters(dict(pairs))
-                assert ip.as_text() == contents[op[3]], 'dict route does not reproduce the content'
+            ip = None
+            if kind in ('getdict', 'getmix'):   # the library writes the request file itself
+                if kind == 'getdict':
+                    want = contents[op[3]]
+                    ip = GeophiresInputParameters(dict(ln.split(', ', 1) for ln in want.splitlines()))
+                else:
+                    want = contents[op[5]]
+                    ip = GeophiresInputParameters(params=dict(map(tuple, op[4])), from_file_path=Path(paths[op[3]]))
+                assert ip.as_text() == want, 'library-built request does not have the expected content'
                 while len(paths) <= op[2]:
                     paths.append('')
                 paths[op[2]] = str(ip.as_file_path())
             pre = (os.getcwd(), list(sys.argv))
             if kind == 'newclient':
                 clients.append(GeophiresXClient(enable_caching=bool(op[1])))
-            elif kind in ('get', 'getdict'):
+            elif kind in ('get', 'getdict', 'getmix'):
                 ci, p = op[1], op[2]
                 if ci >= len(clients):
                     out = ['noclient']
                 else:
                     try:
-                        r = clients[ci].get_geophires_result(GeophiresInputParameters(from_file_path=Path(paths[p])))
+                        r = clients[ci].get_geophires_result(ip or GeophiresInputParameters(from_file_path=Path(paths[p])))
                         hit = any(r is x for x in results)
                         results.append(r)
                         rep, js = (None, None) if hit else digest_files(r.output_file_path)
